@@ -228,6 +228,10 @@ func runC15(tb report.TB, rep *report.Reporter, c c15Case) {
 	}
 	RunGit(host, "remote", "add", "origin", remote)
 	RunGit(peer, "remote", "add", "origin", remote)
+	if c.Head != "unborn" {
+		// the remote is a normal project remote: it also has branches and tags that are none of git-bug's business
+		RunGit(host, "push", "-q", "origin", "main", "feature/x", "v1.0", "v1.1")
+	}
 	fail := func(sig, detail string) bool { return rep.Fail(tb, "C15/"+sig, detail, c) }
 
 	before := hostState(host)
